@@ -5,6 +5,7 @@ space, every preprocessing configuration, arbitrary original functions and every
 -/
 import GemseoVerif.Lemmas.C01
 import GemseoVerif.Lemmas.C01Sparse
+import GemseoVerif.Lemmas.C01Roles
 import GemseoVerif.Lemmas.C14Round
 import GemseoVerif.Props.C02
 
@@ -697,6 +698,118 @@ theorem session_faithful (tol : Rat) (ops : List Op) (cfg : Cfg) (ssj : Bool)
   rw [runC_eq_run _ cfg ssj val ujac hs]
   exact eval_value_faithful _ cfg val (viewJac ujac) _ (inv_reachable _ cfg val (viewJac ujac) rs) n x
 
+/-! ### Function roles: every preprocessing switch reaches every role
+
+`preprocess_functions` wraps the objective, every constraint, every observable and the copies of the
+observables held by the new-iteration list.  `roleCfg` is what each role receives; the theorems say
+that a request through the accessor of ANY role behaves as the one-configuration state machine
+above (so every theorem of this file holds role by role), and pin down the only role-dependent
+switch (new-iteration observables take physical coordinates). -/
+
+section Roles
+variable (ds : DS) (cfg : Cfg) (ssj : Bool) (val : String → List Rat → List Rat)
+  (ujac : String → List Rat → UserJac)
+
+/-- Objective, constraints and observables are preprocessed with exactly the caller's switches. -/
+theorem roleCfg_of_accessor (r : Role) (h : r ≠ .newIterObservable) : roleCfg cfg r = cfg := by
+  cases r <;> simp_all [roleCfg]
+
+/-- With functions of physical coordinates the new-iteration copies get the caller's switches too. -/
+theorem roleCfg_of_physical (h : cfg.normalized = false) (r : Role) : roleCfg cfg r = cfg := by
+  cases r <;> simp [roleCfg]
+  cases cfg
+  simp_all
+
+/-- Database, Jacobian storage and **integer rounding** are the caller's in every role. -/
+theorem roleCfg_switches (r : Role) :
+    (roleCfg cfg r).useDb = cfg.useDb ∧ (roleCfg cfg r).storeJac = cfg.storeJac ∧
+    (roleCfg cfg r).roundInts = cfg.roundInts ∧ roundOn ds (roleCfg cfg r) = roundOn ds cfg := by
+  cases r <;> simp [roleCfg, roundOn]
+
+/-- **Rounding off, physical coordinates** (the class of seeded change r3m1): whatever the role,
+    the original function is evaluated at the caller's point itself - off-grid integer components
+    included - and the record goes under that very point. -/
+theorem role_point_without_rounding (hn : cfg.normalized = false) (hr : cfg.roundInts = false)
+    (r : Role) (x : List Rat) :
+    phys ds (roleCfg cfg r) x = x ∧ keyOf ds (roleCfg cfg r) x = x := by
+  rw [roleCfg_of_physical cfg hn r]
+  unfold phys keyOf roundOn
+  simp [hn, hr]
+
+/-- **Rounding on, physical coordinates**: whatever the role, the original function is evaluated at
+    the rounded point (`round_vect`), integer components to a nearest integer. -/
+theorem role_point_with_rounding (hn : cfg.normalized = false) (hr : roundOn ds cfg = true)
+    (r : Role) (x : List Rat) :
+    phys ds (roleCfg cfg r) x = ds.roundVect x := by
+  rw [roleCfg_of_physical cfg hn r]
+  unfold phys
+  simp [hn, hr]
+
+/-- A request is *plain* when it goes through `objective` / `constraints` / `observables`, or through
+    the new-iteration list of a problem whose functions take physical coordinates. -/
+def Plain (r : RReq) : Prop := r.role ≠ .newIterObservable ∨ cfg.normalized = false
+
+theorem stepR_eq_stepC (st : St) (r : RReq) (h : Plain cfg r) :
+    stepR ds cfg ssj val ujac st r = stepC ds cfg ssj val ujac st r.req := by
+  unfold stepR
+  rcases h with h | h
+  · rw [roleCfg_of_accessor cfg r.role h]
+  · rw [roleCfg_of_physical cfg h r.role]
+
+/-- **Roles are unobservable**: a history of requests spread over the roles in any way leaves the
+    same database and call log - hence returns the same data - as the same requests on the
+    one-configuration state machine. -/
+theorem runR_eq_runC (rs : List RReq) (h : ∀ r ∈ rs, Plain cfg r) (st : St) :
+    runR ds cfg ssj val ujac st rs = runC ds cfg ssj val ujac st (rs.map (·.req)) := by
+  induction rs generalizing st with
+  | nil => rfl
+  | cons r rs ih =>
+    simp only [runR, runC, List.foldl_cons, List.map_cons]
+    rw [stepR_eq_stepC ds cfg ssj val ujac st r (h r (by simp))]
+    exact ih (fun q hq => h q (by simp [hq])) _
+
+/-- **New-iteration observables, normalized functions**: a value request at the physical point
+    `unnormalize_vect x` through the new-iteration copy is the very same transition (returned value,
+    database, call log) as the value request at `x` through the observable. -/
+theorem newIter_value_request_eq (hn : cfg.normalized = true) (st : St) (n : String) (x : List Rat) :
+    evalValue ds (roleCfg cfg .newIterObservable) val st n (ds.unnormalizeVect true x)
+      = evalValue ds cfg val st n x := by
+  have hp : phys ds (roleCfg cfg .newIterObservable) (ds.unnormalizeVect true x) = phys ds cfg x := by
+    have hn' : (roleCfg cfg .newIterObservable).normalized = false := rfl
+    cases h : roundOn ds (roleCfg cfg .newIterObservable) <;>
+      simp [phys, hn', hn, h, roundVect_unnormalizeVect]
+  have hk : keyOf ds (roleCfg cfg .newIterObservable) (ds.unnormalizeVect true x) = keyOf ds cfg x := by
+    unfold keyOf
+    simp [roleCfg, hn]
+  unfold evalValue
+  rw [hp, hk]
+  simp [roleCfg]
+
+end Roles
+
+/-- **Whole sessions, role by role**: for every history of public edits of the design space, every
+    preprocessing configuration, every user function and container, every history of requests spread
+    over objective / constraint / observable / new-iteration accessors, and every role the next
+    request goes through: value and Jacobian are the user's function and derivative at the physical
+    point of the CALLER's configuration. -/
+theorem role_session_faithful (tol : Rat) (ops : List Op) (cfg : Cfg) (ssj : Bool)
+    (val : String → List Rat → List Rat) (ujac : String → List Rat → UserJac)
+    (hshape : ∀ n p s, ujac n p = .sparse s → s.ncols = (spaceOf tol ops).dimension)
+    (rs : List RReq) (hrs : ∀ r ∈ rs, Plain cfg r) (role : Role)
+    (hrole : role ≠ .newIterObservable ∨ cfg.normalized = false) (n : String) (x : List Rat) :
+    (evalValue (spaceOf tol ops) (roleCfg cfg role) val
+        (runR (spaceOf tol ops) cfg ssj val ujac St.init rs) n x).2
+        = val n (phys (spaceOf tol ops) cfg x) ∧
+    (evalJacC (spaceOf tol ops) (roleCfg cfg role) ssj ujac
+        (runR (spaceOf tol ops) cfg ssj val ujac St.init rs) n x).2
+        = jacCaller (spaceOf tol ops) cfg (viewJac ujac) n x := by
+  have hc : roleCfg cfg role = cfg := by
+    rcases hrole with h | h
+    · exact roleCfg_of_accessor cfg role h
+    · exact roleCfg_of_physical cfg h role
+  rw [hc, runR_eq_runC _ cfg ssj val ujac rs hrs]
+  exact session_faithful tol ops cfg ssj val ujac hshape (rs.map (·.req)) n x
+
 /-! ### Normalisation of linear functions is exact -/
 
 /-- `MDOLinearFunction.normalize` on one coefficient: `a·(l + s·t) = (a·s)·t + a·l`. -/
@@ -750,5 +863,18 @@ def exInt : DS := { vars := [⟨"n", true, [some (-10), some (-10)], [some 10, s
   ⟨"m", true, [some 0], [some 20], some [4]⟩] }
 example : phys exInt ⟨true, true, true, true⟩ [27/10, -8/5, 5/2] = [3, -2, 2] := by decide +kernel
 example : phys exInt ⟨true, true, true, true⟩ [-36/10, 11/5, 7/2] = [-4, 2, 4] := by decide +kernel
+
+-- roles: rounding off, physical coordinates, an off-grid integer component: every role at the caller's point
+example : ∀ r : Role, phys exInt (roleCfg ⟨false, true, true, false⟩ r) [8/5, -8/5, 5/2] = [8/5, -8/5, 5/2] := by
+  intro r; cases r <;> decide +kernel
+example : ∀ r : Role, phys exInt (roleCfg ⟨false, true, true, true⟩ r) [8/5, -8/5, 5/2] = [2, -2, 2] := by
+  intro r; cases r <;> decide +kernel
+-- a mixed history over the four roles (physical coordinates) is a plain history
+example : ∀ r ∈ ([⟨.objective, ⟨"f", .value, [8/5, 0, 0]⟩⟩, ⟨.newIterObservable, ⟨"o", .jacobian, [8/5, 0, 0]⟩⟩,
+    ⟨.constraint, ⟨"g", .value, [1, 0, 0]⟩⟩] : List RReq), Plain ⟨false, true, true, false⟩ r := by
+  intro r hr; right; rfl
+-- new-iteration copy, normalized functions: the physical point of [27/10, -8/5, 5/2] is [3, -2, 2]
+example : (evalValue exInt (roleCfg ⟨true, true, true, true⟩ .newIterObservable) exVal St.init "o" [3, -2, 2]).2
+    = (evalValue exInt ⟨true, true, true, true⟩ exVal St.init "o" [27/10, -8/5, 5/2]).2 := by decide +kernel
 
 end GV.C01
